@@ -386,13 +386,15 @@ func (e *strEnv) observe() string {
 }
 
 type strResult struct {
-	free         bool // the scenario left the scripted regime: monitors only
-	raceStranded int
-	raceTrials   int
-	actions      []string
-	obs          []string
-	env          *strEnv
-	stuck        string
+	free           bool // the scenario left the scripted regime: monitors only
+	raceStranded   int
+	raceTrials     int
+	badOpenProblem string
+	badOpenCalls   int
+	actions        []string
+	obs            []string
+	env            *strEnv
+	stuck          string
 }
 
 func (e *strEnv) endRead(end *strEnd, read func(m *[]byte) error) {
@@ -422,6 +424,122 @@ func (e *strEnv) endWrite(end *strEnd, v int, write func(m *[]byte) error) {
 		end.written = append(end.written, v)
 	}
 	e.mu.Unlock()
+}
+
+// pumpLink forwards frames in both directions until stop is closed.
+func (e *strEnv) pumpLink(stop chan struct{}, wg *sync.WaitGroup) {
+	pump := func(q *[]linkFrame, ch chan feedItem) {
+		defer wg.Done()
+		for {
+			select {
+			case <-stop:
+				return
+			default:
+			}
+			e.mu.Lock()
+			var fr *linkFrame
+			if len(*q) > 0 {
+				f := (*q)[0]
+				*q = (*q)[1:]
+				fr = &f
+			}
+			e.mu.Unlock()
+			if fr == nil {
+				time.Sleep(20 * time.Microsecond)
+				continue
+			}
+			select {
+			case ch <- feedItem{frame: fr.raw}:
+			case <-stop:
+				return
+			}
+		}
+	}
+	wg.Add(2)
+	go pump(&e.c2s, e.sfeed)
+	go pump(&e.s2c, e.cfeed)
+}
+
+// badOpens: see the `badopens` action. Returns a description of the first problem ("" = none).
+func (e *strEnv) badOpens(n int) (string, int) {
+	stop := make(chan struct{})
+	var wg sync.WaitGroup
+	e.pumpLink(stop, &wg)
+	var mu sync.Mutex
+	problem := ""
+	calls := 0
+	done := make(chan struct{})
+	var cw sync.WaitGroup
+	for g := 0; g < 4; g++ {
+		cw.Add(1)
+		go func(g int) {
+			defer cw.Done()
+			for i := 0; ; i++ {
+				select {
+				case <-done:
+					return
+				default:
+				}
+				args := []byte(fmt.Sprintf("g%d-%d", g, i))
+				reply := new([]byte)
+				call := e.conn.Go("T.Echo", &args, reply, make(chan *rpc.Call, 1))
+				select {
+				case <-call.Done:
+					mu.Lock()
+					calls++
+					if call.Error != nil || string(*reply) != "echo:"+string(args) {
+						if problem == "" {
+							problem = fmt.Sprintf("a unary call next to failing stream opens came back with error %v and reply %q (want %q)", call.Error, string(*reply), "echo:"+string(args))
+						}
+					}
+					mu.Unlock()
+				case <-time.After(2 * time.Second):
+					mu.Lock()
+					if problem == "" {
+						problem = "a unary call next to failing stream opens did not return within 2 s"
+					}
+					mu.Unlock()
+					return
+				}
+			}
+		}(g)
+	}
+	for i := 0; i < n; i++ {
+		res := make(chan error, 1)
+		go func() {
+			_, err := e.conn.NewStream("Nope.Stream")
+			res <- err
+		}()
+		select {
+		case err := <-res:
+			if err == nil {
+				mu.Lock()
+				if problem == "" {
+					problem = "NewStream on an unknown method returned no error"
+				}
+				mu.Unlock()
+			}
+		case <-time.After(2 * time.Second):
+			mu.Lock()
+			if problem == "" {
+				problem = "NewStream on an unknown method did not return within 2 s"
+			}
+			mu.Unlock()
+		}
+		mu.Lock()
+		p := problem
+		mu.Unlock()
+		if p != "" {
+			break
+		}
+	}
+	close(done)
+	cw.Wait()
+	close(stop)
+	wg.Wait()
+	mu.Lock()
+	defer mu.Unlock()
+	return problem, calls
 }
 
 // closeRace: see the `closerace` action.
@@ -643,6 +761,14 @@ func runStrScenario(sc strScenario) *strResult {
 				break
 			}
 			e.endWrite(&c.e, atoi(f[2]), func(m *[]byte) error { return c.st.WriteMessage(m) })
+		case "cwritebad":
+			// a message the body codec cannot encode: the write fails on the client, nothing is sent,
+			// the stream stays open and usable
+			if c == nil || !c.opened {
+				ok = false
+				break
+			}
+			c.st.WriteMessage(&failArgs{})
 		case "cread":
 			if c == nil || !c.opened || c.e.waiting {
 				ok = false
@@ -719,6 +845,11 @@ func runStrScenario(sc strScenario) *strResult {
 				e.sEnded = true
 				e.mu.Unlock()
 			}
+		case "badopens":
+			// n stream opens on a method that does not exist, with unary calls from four goroutines
+			// in flight all the while: each open fails alone, every neighbour gets its own echo
+			res.free = true
+			res.badOpenProblem, res.badOpenCalls = e.badOpens(atoi(f[1]))
 		case "closerace":
 			// n streams, each closed by its owner at the very moment a ReadMessage on it starts: the
 			// reader must come back with ErrStreamShutdown however the two interleave. The link is
@@ -809,6 +940,17 @@ func checkStr(sc strScenario, r *strResult) []connVerdict {
 			}
 		}
 	}
+	// C03: a stream open or close that was outstanding when the connection ended returns
+	if e.cShut {
+		for i, c := range e.cs {
+			if !c.opened && !c.failed {
+				add("C03", "no-caller-hangs", "C03/stream-open-hangs/"+mode, fmt.Sprintf("stream %d: NewStream was waiting for its acknowledgement when the connection ended and has not returned", i))
+			}
+			if c.closeCalled && !c.closeDone {
+				add("C03", "no-caller-hangs", "C03/stream-close-hangs/"+mode, fmt.Sprintf("stream %d: Close was waiting for its acknowledgement when the connection ended and has not returned", i))
+			}
+		}
+	}
 	// C10: after an end of the connection has been told about the loss, nobody stays parked on its streams
 	if e.cShut {
 		for i, c := range e.cs {
@@ -838,6 +980,9 @@ func checkStr(sc strScenario, r *strResult) []connVerdict {
 		if n := e.uAnswered[name]; n != 1 {
 			add("C04", "one-response", "C04/unary-beside-streams/"+mode, fmt.Sprintf("unary request %s was read by the server next to stream traffic and got %d responses", name, n))
 		}
+	}
+	if r.badOpenProblem != "" {
+		add("C06", "failed-open-fails-alone", "C06/failed-stream-open-disturbs-neighbours/"+mode, r.badOpenProblem+fmt.Sprintf(" (%d neighbour calls made)", r.badOpenCalls))
 	}
 	if r.raceStranded > 0 {
 		add("C10", "reader-released", "C10/read-raced-with-close-stranded/"+mode, fmt.Sprintf("a ReadMessage that started at the moment its stream was closed was still blocked 2 s later (trial %d)", r.raceTrials))
@@ -872,7 +1017,9 @@ func strCorpus() []strScenario {
 		mk("cut-with-parked-readers", "copen", "copen", "ds", "ds", "dc", "dc", "cread 0", "sread 0", "sread 1", "swrite 1 4", "cut 0 0", "ceof", "seof", "cread 1", "swrite 0 5", "cwrite 0 6", "probe")
 		mk("cut-keeps-prefix", "copen", "ds", "dc", "swrite 0 1", "swrite 0 2", "swrite 0 3", "cwrite 0 7", "cwrite 0 8", "cut 1 2", "dc", "dc", "ds", "cread 0", "cread 0", "cread 0", "sread 0", "sread 0", "ceof", "seof", "probe")
 		mk("cut-while-opening", "copen", "copen", "ds", "cut 0 0", "ceof", "seof", "probe")
+		mk("unencodable-write-leaves-the-stream-usable", "copen", "ds", "dc", "cwritebad 0", "swrite 0 1", "dc", "cread 0", "cwrite 0 2", "ds", "sread 0", "cwritebad 0", "swrite 0 3", "swrite 0 4", "dc", "dc", "cread 0", "cread 0", "cread 0", "probe")
 		mk("close-races-read", "closerace 1500")
+		mk("failing-opens-next-to-calls", "badopens 400")
 		mk("close-after-end", "copen", "ds", "dc", "cut 0 0", "ceof", "cclose 0", "cread 0", "seof", "sread 0", "probe")
 	}
 	return out
@@ -917,9 +1064,11 @@ func genStrScenario(r *prng.R) strScenario {
 		case x < 60:
 			sc.Actions = append(sc.Actions, fmt.Sprintf("swrite %d %d", s, next))
 			next++
-		case x < 70:
+		case x < 69:
 			sc.Actions = append(sc.Actions, fmt.Sprintf("cwrite %d %d", s, next))
 			next++
+		case x < 70:
+			sc.Actions = append(sc.Actions, fmt.Sprintf("cwritebad %d", s))
 		case x < 78:
 			sc.Actions = append(sc.Actions, fmt.Sprintf("cread %d", s))
 		case x < 86:
@@ -1017,7 +1166,7 @@ func runStr(dir string, seed uint64, tier, only, replay string) *rep.Report {
 		}
 		return rp
 	}
-	parentLoopN("stream", dir, len(scs), []string{"-out", dir, "-seed", fmt.Sprint(seed), "-tier", tier}, rp, []string{"t"}, []string{"C08"}, 60*time.Second, 8)
+	parentLoopN("stream", dir, len(scs), []string{"-out", dir, "-seed", fmt.Sprint(seed), "-tier", tier}, rp, []string{"t"}, []string{"C08", "C06"}, 60*time.Second, 8)
 	return rp
 }
 
